@@ -170,6 +170,14 @@ func amountsProfile(property string, tier Tier) *explore.Profile {
 					call(a0, a0, vmcommon.BuiltInFunctionMultiESDTNFTTransfer, b0, uni.Big(1), uni.S, uni.Big(1), q),
 				)
 			}
+			// the same calls with the return-after-error flag set (an input flag that exempts from
+			// freeze/pause, never from the balance check)
+			n := len(acts)
+			for i := 0; i < n; i++ {
+				f := acts[i]
+				f.ReturnAfterError = true
+				acts = append(acts, f)
+			}
 			if spec.Frozen(w.Get(a0), "F") {
 				acts = append(acts, uni.SysCall(a0, vmcommon.BuiltInFunctionESDTWipe, uni.F))
 			} else {
@@ -177,5 +185,58 @@ func amountsProfile(property string, tier Tier) *explore.Profile {
 			}
 			return acts
 		},
+	}
+}
+
+// ---------------------------------------------------------------------------------------------
+// scripted prefix + exhaustive suffix: reach multi-byte nonces (256 = 0x0100, 257 = 0x0101)
+
+// highNonceProfile drives one scripted history - create, burn the previous one - until the
+// collection S has issued nonce 257 (every step checked by the attached oracles), then explores
+// every hop of the NFTs with nonces 1, 256 and 257 for `suffix` more levels. Frontier width is 1
+// during the script, so the cost is ~520 steps plus the suffix.
+func highNonceProfile(name string, tier Tier, oracles []explore.Oracle, suffix int) *explore.Profile {
+	o := menuOpts{thorough: tier.Thorough(), shards: 2}
+	const target = 257
+	return &explore.Profile{
+		Name: name, EnvCfg: ledgerEnv(2), Seeds: seedsOf("sft"),
+		// 1 (burn own nonce 1) + 1 + 2*253 + 1 scripted steps from the seed (nonces 1,2) to nonce 257
+		Depth:    509 + suffix,
+		Deadline: tierDeadline(tier), WithGhost: true, Workers: 4,
+		Oracles: append(append([]explore.Oracle{}, oracles...), scriptReached{}),
+		Menu: func(w *world.World) []world.Action {
+			hi := int64(w.Ghost.Highest["S"])
+			if hi < target {
+				// a0 gives up its own (S,1) first: other accounts keep theirs, so that a key
+				// collision between nonce 1 and a multi-byte nonce has something to collide with
+				// on both the creating and the receiving side
+				if h := held(w, uni.A0, "S\x01"); h > 0 {
+					return []world.Action{uni.Call(uni.A0, uni.A0, vmcommon.BuiltInFunctionESDTNFTBurn, uni.S, uni.Big(1), uni.Big(h))}
+				}
+				// burn the latest one first unless it is one of the kept nonces
+				if hi > 2 && hi != 256 && held(w, uni.A0, "S"+spec.NonceSuffix(uint64(hi))) > 0 {
+					return []world.Action{uni.Call(uni.A0, uni.A0, vmcommon.BuiltInFunctionESDTNFTBurn, uni.S, uni.Big(hi), uni.Big(2))}
+				}
+				return []world.Action{uni.Create(uni.A0, uni.S, 2)}
+			}
+			acts := hopMenu(w, o, uni.S, []int64{1, 256, 257}, true)
+			for _, n := range []int64{256, 257} {
+				acts = append(acts, uni.Call(uni.A0, uni.A0, vmcommon.BuiltInFunctionESDTNFTAddQuantity, uni.S, uni.Big(n), uni.Big(1)))
+				acts = append(acts, uni.Call(uni.A0, uni.A0, vmcommon.BuiltInFunctionESDTNFTBurn, uni.S, uni.Big(n), uni.Big(1)))
+				acts = append(acts, uni.Multi(uni.A0, uni.C1, []uni.Ent{{Tok: uni.S, Nonce: n, Q: 1}, {Tok: uni.S, Nonce: 1, Q: 1}}))
+			}
+			return acts
+		},
+	}
+}
+
+// scriptReached counts the states in which the scripted prefix has reached its target, so that a
+// stalled script fails the run's non-vacuity self-check instead of passing silently.
+type scriptReached struct{}
+
+func (scriptReached) Leg(c *explore.Ctx, leg *world.Leg) {}
+func (scriptReached) State(c *explore.Ctx, w *world.World) {
+	if w.Ghost.Highest["S"] >= 257 {
+		c.Class("high-nonce-reached")
 	}
 }
